@@ -304,6 +304,26 @@ def check_gem(ctx):
     ok = eps is not None and U(eps) == 'epsilon' and not reassigned and sens is not None and U(sens) in ('1.0', '1')
     ctx.ob('forwards-eps', fi, c, ok, 'must select with its own epsilon, unchanged, and sensitivity 1 (scores are pre-scaled); '
            'passes eps=`%s`, sensitivity=`%s`' % (U(eps) if eps is not None else None, U(sens) if sens is not None else None))
+    # the base measure in the convention of the callee: exponential_mechanism takes the LOG of a base measure given as a dict (keyed like
+    # the qualities) and adds an array as it is (an array must already be a log-measure)
+    base = kwarg(c, 'base_measure', 3)
+    if base is not None and isinstance(base, ast.Name):
+        bname = base.id
+        for st in ast.walk(fi.node):
+            if isinstance(st, ast.Assign) and len(st.targets) == 1 and U(st.targets[0]) == bname:
+                v = st.value
+                logged = any(isinstance(x, ast.Call) and U(x.func).split('.')[-1] in ('log', 'log2', 'log10') for x in ast.walk(v))
+                is_dict = isinstance(v, (ast.DictComp, ast.Dict)) or (isinstance(v, ast.Call) and U(v.func) == 'dict')
+                is_arr = not is_dict and (isinstance(v, (ast.ListComp, ast.List)) or (isinstance(v, ast.Call) and U(v.func).split('.')[-1] in ('log', 'array', 'asarray')))
+                if not (is_dict or is_arr):
+                    raise AnalysisError('generalized_exponential_mechanism: base measure re-defined as `%s`, neither a dict nor an array' % U(v)[:60])
+                ok_b = (is_dict and not logged) or (is_arr and logged)
+                ctx.ob('logits-calibrated', fi, st, ok_b,
+                       'the base measure handed on must follow the callee\'s convention (a dict holds the measure itself - the callee takes the log; an '
+                       'array holds the log-measure): `%s` is a %s of %s values%s'
+                       % (U(st)[:70], 'dict' if is_dict else 'array', 'logged' if logged else 'raw',
+                          '' if ok_b else (': the measure is logged twice' if is_dict else ': the measure is added without its log')),
+                       construct='base measure convention in generalized_exponential_mechanism')
 
 
 def check_helpers(ctx):
